@@ -197,7 +197,7 @@ Proof.
     by (vm_compute; reflexivity).
   rewrite E. simpl. unfold multi_ok.
   repeat split; try reflexivity; try (repeat constructor; discriminate);
-    intros [|[|[|k]]] H; simpl in *; try reflexivity; try discriminate.
+    intros [|[|[|k]]] H; simpl in *; try reflexivity; try discriminate; try exact H.
 Qed.
 Example ex_walk : fst (walk 3 [0;2;0;3;0]%Z [1;2;4]%Z) = [0;1;0;2;0]%Z /\ choice_ok 5 3 [1;2;4]%Z.
 Proof. split; [vm_compute; reflexivity|apply choice_okb_ok; vm_compute; reflexivity]. Qed.
